@@ -24,6 +24,7 @@ def run(prop, tier):
             jobs.append(dict(src=SRC, args=["refs", "-p", p, "--", jd, sc, body]))
     jobs.append(dict(src=SRC, args=["tls", "-p", p, "--", 2]))
     jobs.append(dict(src=SRC, args=["tls", "-p", p, "--", 2, "b"]))
+    jobs.append(dict(src=SRC, args=["tls", "-p", p, "--", 1, "c"]))       # key reference freed while a thread still holds a value
     if tier == "thorough":
         jobs.append(dict(src=SRC, args=["tls", "-p", 2, "--", 3]))
     jobs.append(dict(src=SRC, args=["foreign", "-p", p]))
